@@ -169,10 +169,33 @@ Wrappers == {k \in Defs : Schema[k].generic /\ \A j \in 1..Len(Schema[k].params)
                LET p == Schema[k].params[j] IN p.base \in Prim \cup {"!X"} \/ (p.boxed /\ p.base \in R5)}
 WrapperCases == {Case(k, "wrapper", Base(k, Bits(k), "full", <<>>)) : k \in Wrappers}
 
+(* ---- the hand-written codecs of MTProto service objects (C01 / C02) ----
+   msg_container#73f1f8dc messages:vector<%Message>     message msg_id:long seqno:int bytes:int body:Object
+   rpc_result#f35c6d01 req_msg_id:long result:Object    gzip_packed#3072cfa1 packed_data:bytes
+   `bytes` is the length of the body; the body is the boxed serialisation of the inner object.  The bytes of
+   gzip_packed are not fixed by the schema (any gzip stream of the inner object's serialisation). *)
+MtDef(n) == CHOOSE k \in Defs : Schema[k].name = n /\ Schema[k].file = "mtproto.tl"
+InnerVals == <<Base(MtDef("pong"), {}, "full", <<>>), Base(MtDef("msgs_ack"), {}, "full", <<>>),
+               Base(MtDef("new_session_created"), {}, "full", <<>>)>>
+MsgIdChunk(n) == [t |-> "q", v |-> <<4 * (500 + n), 0, 0, 11>>]
+ItemImg(j) == <<MsgIdChunk(j), C!WInt(2 * j + 1), C!WInt(C!ImageLen(C!EncObj(InnerVals[j])))>> \o C!EncObj(InnerVals[j])
+ContainerCase(m) ==
+  [name |-> "msg_container", idhex |-> "73f1f8dc", pat |-> "container", toolarge |-> FALSE,
+   val |-> [k |-> "container", items |-> [j \in 1..m |-> [n |-> j, seq |-> 2 * j + 1, body |-> Strip(InnerVals[j]), bodyimg |-> C!EncObj(InnerVals[j])]]],
+   img |-> <<C!W(<<29681, 63708>>), C!WInt(m)>> \o C!Flat([j \in 1..m |-> ItemImg(j)])]
+RpcResultCase(j) ==
+  [name |-> "rpc_result", idhex |-> "f35c6d01", pat |-> "rpc-result", toolarge |-> FALSE,
+   val |-> [k |-> "rpcresult", n |-> j, obj |-> Strip(InnerVals[j])],
+   img |-> <<C!W(<<62300, 27905>>), MsgIdChunk(j)>> \o C!EncObj(InnerVals[j])]
+GzipCase(j) ==
+  [name |-> "gzip_packed", idhex |-> "3072cfa1", pat |-> "gzip", toolarge |-> FALSE,
+   val |-> [k |-> "gzip", obj |-> Strip(InnerVals[j]), objimg |-> C!EncObj(InnerVals[j])], img |-> <<>>]
+SpecialCases == [j \in 1..4 |-> ContainerCase(j - 1)] \o [j \in 1..3 |-> RpcResultCase(j)] \o [j \in 1..3 |-> GzipCase(j)]
+
 Todo == {k \in Defs : Encodable(k)}
 AllCases == UNION {Family(k) : k \in Todo} \cup BigCases("string") \cup BigCases("bytes") \cup WrapperCases
 Skipped == {Schema[k].name : k \in Defs \ Todo}
 
-ASSUME ndJsonSerialize(IOEnv.VERIF_OUT, [j \in 1..Cardinality(AllCases) |-> Emit(SetToSeq(AllCases)[j])])
+ASSUME ndJsonSerialize(IOEnv.VERIF_OUT, [j \in 1..Cardinality(AllCases) |-> Emit(SetToSeq(AllCases)[j])] \o SpecialCases)
 ASSUME PrintT(<<"definitions", Cardinality(Todo), "cases", Cardinality(AllCases), "skipped", Skipped>>)
 =============================================================================
